@@ -222,6 +222,8 @@ def mutate(d: dict, tree, path, mut):
         node["name"] = mut[1]
     elif kind == "extra":
         node.setdefault("kwargs", {})[mut[1]] = 999
+    elif kind == "extraattr":
+        node.setdefault("attributes", {})[mut[1]] = 999
     elif kind == "dropslot":
         sp = specs()[sub[0]]
         sl = next(s for s in sp["slots"] if s["name"] == mut[1])
@@ -400,7 +402,7 @@ class RoundTrip(common.Suite):
                         out.append(c)
             # mutations at the root of the flat probe
             t0 = trees[0]
-            muts = [["rename", "NotRegisteredAnywhere"], ["extra", "zzz_unexpected"]]
+            muts = [["rename", "NotRegisteredAnywhere"], ["extra", "zzz_unexpected"], ["extraattr", "zzz_unexpected"]]
             other = sorted(n for n, s in S.items() if s["kind"] != sp["kind"] and s["kind"] != "driver")
             same = sorted(n for n, s in S.items() if s["kind"] == sp["kind"] and n != name and sp["kind"] != "driver")
             if other and sp["kind"] != "driver":  # (a driver keeps its children at top level, not under kwargs)
@@ -423,7 +425,7 @@ class RoundTrip(common.Suite):
                 paths = [p for p in all_paths(t) if p]
                 for p in rng.sample(paths, min(len(paths), 2 if tier == "quick" else 6)):
                     sub = S[node_at(t, p)[0]]
-                    cand = [["rename", "NotRegisteredAnywhere"], ["extra", "zzz_unexpected"]]
+                    cand = [["rename", "NotRegisteredAnywhere"], ["extra", "zzz_unexpected"], ["extraattr", "zzz_unexpected"]]
                     for sect, ks in sub.get("dict_keys", {}).items():
                         cand += [["drop", sect, k] for k in ks
                                  if not (sect == "kwargs" and any(sl["name"] == k for sl in sub["slots"]))]
